@@ -12,7 +12,7 @@
 From PCD Require Import Base.PyBase Base.Cfg Model.Args Model.Data Model.Consts Model.LineTable Model.Blocks
   Model.CodeData Spec.Lnotab Spec.Dis Model.ViewSer Proofs.C02_Statements Proofs.C01_Statements
   Proofs.C03_Statements Proofs.C03b_Statements Proofs.C03c_Statements Proofs.TablesReplay Proofs.TablesSound
-  Proofs.RelaxProofs Proofs.EncodeCorrect Proofs.C06_Statements Proofs.C03d_Statements Proofs.Redecode Proofs.Total_Statements Proofs.EncodeTotal1 Proofs.EncodeTotal.
+  Proofs.RelaxProofs Proofs.EncodeCorrect Proofs.C06_Statements Proofs.C03d_Statements Proofs.Redecode Proofs.Total_Statements Proofs.EncodeTotal1 Proofs.EncodeTotal Proofs.CodeRoundTrip Proofs.RedecodeNormalForm.
 
 (* For every configuration and every well-formed datum without private override fields (constants paired
    with their encodings): the emitted code object is read back by CPython's disassembler and line reader
@@ -119,3 +119,23 @@ Theorem C03_to_code_returns_iff_enc_ok : forall c (d : code_data_ pconst),
   ((exists code, encode_code c d = OK code) <-> enc_ok c d = true).
 Proof. exact encode_total_iff. Qed.
 Print Assumptions C03_to_code_returns_iff_enc_ok.
+
+(* The last clause in full: for hand-built well-formed data whose blocks are cut at the jump-target
+   partition (every block but the first is the target of some jump: blocks_canonical), decoding the
+   emitted code object again gives data EQUAL (the library's ==) to the input up to normalization -
+   blocks, header, signature, docstring, constants at any nesting.  cfg_flags_ok holds for the four
+   generated configurations (Props/C06.v).  Without blocks_canonical the statement is false
+   (RedecodeNormalForm.C03_redecode_needs_canonical: a block boundary that no jump targets is not
+   something the decoder can reproduce), which is why the stream statement above is kept as well. *)
+Theorem C03_redecode_gives_the_data_up_to_normalization : forall c (d : code_data_ pconst) code,
+  cfg_flags_ok c = true ->
+  data_wf c d = true ->
+  blocks_canonical (cd_blocks d) ->
+  encode_code c d = OK code ->
+  zlen (co_code code) < 1073741824 ->
+  exists kst : list pconst,
+    map snd kst = co_consts code /\
+    forall d2, decode_code c code (map fst kst) = OK d2 ->
+      cd_eqb (normalize d2) (normalize (proj_cd d)) = true.
+Proof. exact C03_redecode_normal_form_cfg. Qed.
+Print Assumptions C03_redecode_gives_the_data_up_to_normalization.
